@@ -30,6 +30,10 @@ separate enqueues) and the table refresh:
     move between the ASK and the resend: ASK then MOVED). TLC: clean without a bound on the redirections followed, NoRedirectError
     violated with MaxFollowed = 1 and = 2. Code: behaviours with a stale table and the refresher held back (Gen_Cluster_stale.cfg),
     and cluster-redirchain sets up moved-ask, moved-moved, ask-moved, moved-ask-moved every run (read and write each).
+ 9. failover strata (DeathKinds, PromotedFlags, RefreshOnTimeout, ParserSkips): the replaced master's address refuses connections or
+    its machine vanished (connect times out); the promoted node is reported as master / master,nofailover / myself,master, with
+    healthy neighbours merely suspected (fail?). TLC: clean as the code is; a refresh only after a REFUSED connect, or a parser that
+    drops nofailover lines, never converges. Code: cluster-failflags, 2 x 4 strata every run (a black hole on the dead node's port).
 
 Modules owned (with C03): see checks/c03.py.
 """
@@ -58,9 +62,19 @@ def run(ctx):
            expect_violated=["SingleCopy", "CopyIsReference", "EqualsReference"], count=False)
     # failover: a master is replaced by a standby node and dies; a request that fails against the dead master must make
     # the table converge (repaired code: a dial error triggers a refresh); the pinned variant must fail
-    ctx.mc("redis", "MC_Cluster", "MC_Cluster_failover_fixed.cfg", workers=(8 if ctx.thorough else 4), timeout=900)
+    ctx.mc("redis", "MC_Cluster", "MC_Cluster_failover_fixed_thorough.cfg" if ctx.thorough else "MC_Cluster_failover_fixed.cfg",
+           workers=(8 if ctx.thorough else 4), timeout=900)
     ctx.mc("redis", "MC_Cluster", "MC_Cluster_failover_pinned.cfg", workers=4, timeout=600,
            expect_violated=["TEMPORAL", "ConvergesAfterDialError"], count=False)
+    # the replaced master is gone in one of two ways (connections refused / the connect times out) and the promoted node carries
+    # one of several flag sets in CLUSTER NODES (the configuration above has them all): a proxy that asks for the table only
+    # after a REFUSED connect, and a parser that drops the line of a node flagged nofailover, must both fail to converge
+    ctx.mc("redis", "MC_Cluster", "MC_Cluster_failover_timeout.cfg", workers=2, timeout=600,
+           expect_violated=["TEMPORAL", "ConvergesAfterDialError"], count=False)
+    ctx.mc("redis", "MC_Cluster", "MC_Cluster_failover_skipflags.cfg", workers=2, timeout=600,
+           expect_violated=["EqualsReference", "ErrorsOnlyWhileStale", "TEMPORAL", "ConvergesAfterDialError"], count=False)
+    if ctx.thorough:   # a parser that drops exactly the lines flagged fail / noaddr / handshake would be safe
+        ctx.mc("redis", "MC_Cluster", "MC_Cluster_failover_exactflags.cfg", workers=8, timeout=900)
     # order of redirected requests towards a node the proxy is not connected to yet: clean as the code does it (the source's
     # reader resends), counterexample when the resend is left to a goroutine of its own
     ctx.mc("redis", "MC_Cluster", "MC_Cluster_freshtarget_thorough.cfg" if ctx.thorough else "MC_Cluster_freshtarget.cfg", workers=(8 if ctx.thorough else 4), timeout=900)
@@ -93,6 +107,7 @@ def run(ctx):
     clusterlib.gen_and_replay(ctx, "Gen_Cluster_stale.cfg", 150 if ctx.thorough else 30, False, "stale", extra=["-norefresh"])
     clusterlib.redirect_order(ctx)
     clusterlib.redirect_chain(ctx)
+    clusterlib.failover_strata(ctx)
     ffile = os.path.join(ctx.work, "failover.ndjson")
     ctx.harness(["cluster-failover", "-out", ffile, "-runs", "24" if ctx.thorough else "4"], timeout=900, name="cluster")
     for r in kit.read_ndjson(ffile):
